@@ -234,3 +234,95 @@ func constantInt64(k *types.Const) (int64, bool) {
 	}
 	return constant.Int64Val(v)
 }
+
+// paramsOfType returns the parameters of fn whose type prints as typ (the
+// receiver included).  Rules identify a parameter by its type or name, never
+// by its position, so that reordering a signature is not reported.
+func paramsOfType(fn *ssa.Function, typ string) []*ssa.Parameter {
+	var out []*ssa.Parameter
+	for _, p := range fn.Params {
+		if p.Type().String() == typ {
+			out = append(out, p)
+		}
+	}
+	return out
+}
+
+// paramOfType: the unique parameter of that type, or nil.
+func paramOfType(fn *ssa.Function, typ string) *ssa.Parameter {
+	ps := paramsOfType(fn, typ)
+	if len(ps) == 1 {
+		return ps[0]
+	}
+	return nil
+}
+
+// paramNamed: the parameter with that source name, or nil.
+func paramNamed(fn *ssa.Function, name string) *ssa.Parameter {
+	for _, p := range fn.Params {
+		if p.Name() == name {
+			return p
+		}
+	}
+	return nil
+}
+
+// argFor: the argument a static call passes for callee parameter p.
+func argFor(cc *ssa.CallCommon, p *ssa.Parameter) ssa.Value {
+	sc := cc.StaticCallee()
+	if sc == nil || p == nil {
+		return nil
+	}
+	for i, q := range sc.Params {
+		if q == p && i < len(cc.Args) {
+			return cc.Args[i]
+		}
+	}
+	return nil
+}
+
+// argOfType: the unique argument of a static call whose callee parameter has type typ.
+func argOfType(cc *ssa.CallCommon, typ string) ssa.Value {
+	sc := cc.StaticCallee()
+	if sc == nil {
+		return nil
+	}
+	return argFor(cc, paramOfType(sc, typ))
+}
+
+const roaringBitmapPtr = "*github.com/RoaringBitmap/roaring.Bitmap"
+
+// argNamed: the argument a static call passes for the callee parameter with
+// that source name (nil when there is none).
+func argNamed(cc *ssa.CallCommon, name string) ssa.Value {
+	sc := cc.StaticCallee()
+	if sc == nil {
+		return nil
+	}
+	return argFor(cc, paramNamed(sc, name))
+}
+
+// chunkSizeArgs: (mode, cardinality, document count) arguments of a call of
+// getChunkSize, by parameter name, by position when the names changed.
+func chunkSizeArgs(cc *ssa.CallCommon) (mode, card, docs ssa.Value) {
+	mode, card, docs = argNamed(cc, "chunkMode"), argNamed(cc, "cardinality"), argNamed(cc, "maxDocs")
+	if mode == nil || card == nil || docs == nil {
+		return cc.Args[0], cc.Args[1], cc.Args[2]
+	}
+	return
+}
+
+// fnsCalling: the source functions of the root package (closures included)
+// that contain a static call of the named in-package function, in srcFns
+// order.  Rules anchor on "the function that contains construct X" rather than
+// on a function name wherever the construct identifies the site, so that
+// extracting or renaming a helper is not reported.
+func (c *Ctx) fnsCalling(callee string) []*ssa.Function {
+	var out []*ssa.Function
+	for _, fn := range c.srcFns {
+		if len(callsOf(fn, callee)) > 0 {
+			out = append(out, fn)
+		}
+	}
+	return out
+}
